@@ -12,6 +12,7 @@ import (
 	"github.com/ory/keto/internal/namespace/ast"
 	"github.com/ory/keto/internal/relationtuple"
 	"github.com/ory/keto/internal/x"
+	"github.com/ory/keto/internal/x/graph"
 	"github.com/ory/keto/internal/x/verifhook"
 	"github.com/ory/keto/ketoapi"
 )
@@ -98,6 +99,15 @@ func (e *Engine) checkSubjectSetRewrite(
 			continue
 		}
 
+		// Each operand of an intersection works on its own copy of the visited
+		// set: a subject set that was visited while evaluating one operand
+		// must not be skipped (and thereby counted as "not a member") when
+		// evaluating the next one.
+		childCtx := ctx
+		if rewrite.Operation == ast.OperatorAnd {
+			childCtx = graph.ForkVisited(ctx)
+		}
+
 		switch c := child.(type) {
 
 		case *ast.TupleToSubjectSet:
@@ -110,22 +120,29 @@ func (e *Engine) checkSubjectSetRewrite(
 			checks = append(checks, checkgroup.WithEdge(checkgroup.Edge{
 				Tuple: *tuple,
 				Type:  ketoapi.TreeNodeComputedSubjectSet,
-			}, e.checkComputedSubjectSet(ctx, tuple, c, restDepth)))
+			}, e.checkComputedSubjectSet(childCtx, tuple, c, restDepth)))
 
 		case *ast.SubjectSetRewrite:
 			checks = append(checks, checkgroup.WithEdge(checkgroup.Edge{
 				Tuple: *tuple,
 				Type:  toTreeNodeType(c.Operation),
-			}, e.checkSubjectSetRewrite(ctx, tuple, c, restDepth-1)))
+			}, e.checkSubjectSetRewrite(childCtx, tuple, c, restDepth-1)))
 
 		case *ast.InvertResult:
 			checks = append(checks, checkgroup.WithEdge(checkgroup.Edge{
 				Tuple: *tuple,
 				Type:  ketoapi.TreeNodeNot,
-			}, e.checkInverted(ctx, tuple, c, restDepth)))
+			}, e.checkInverted(childCtx, tuple, c, restDepth)))
 
 		default:
 			return checkNotImplemented
+		}
+
+		if rewrite.Operation == ast.OperatorAnd {
+			check := checks[len(checks)-1]
+			checks[len(checks)-1] = func(ctx context.Context, resultCh chan<- checkgroup.Result) {
+				check(graph.AdoptVisited(ctx, childCtx), resultCh)
+			}
 		}
 	}
 
@@ -148,6 +165,12 @@ func (e *Engine) checkInverted(
 	e.d.Logger().
 		WithField("request", tuple.String()).
 		Trace("invert check")
+
+	// The inverted child is evaluated on its own copy of the visited set: a
+	// subject set that is skipped because it was visited elsewhere counts as
+	// "not a member", which the inversion would turn into "member".
+	isolatedCtx := graph.ForkVisited(ctx)
+	ctx = isolatedCtx
 
 	var check checkgroup.CheckFunc
 
@@ -183,6 +206,7 @@ func (e *Engine) checkInverted(
 
 	return func(ctx context.Context, resultCh chan<- checkgroup.Result) {
 		innerCh := make(chan checkgroup.Result)
+		ctx = graph.AdoptVisited(ctx, isolatedCtx)
 		go check(ctx, innerCh)
 		verifhook.Point("invert.select")
 		select {
